@@ -45,6 +45,8 @@ def test_missing_names():
     got = ah.missing_names(msgs)
     check(got == ["term_output_range", "skip_minimum_chunk", "join_all", "publish"], "missing_names: %r" % got)
     check(ah.missing_names([]) == [], "missing_names([])")
+    got = ah.missing_names(["cannot find value `SHARD_COPY_BUFFER_SIZE` in this scope", "cannot find value `n_read` in this scope", "cannot find value `Foo` in this scope"])
+    check(got == ["SHARD_COPY_BUFFER_SIZE"], "missing_names: ALL_CAPS value only: %r" % got)
 
 
 # ----------------------------------------------------------------------------------------------------------------------
@@ -498,6 +500,45 @@ mod tests {
     bad = "fn top(&self, v: Vec<usize>) -> usize { v.into_iter().map(Self::h0).sum() }"
     out = ah.inline_item(d, "src/lib.rs", "impl S", bad, ["h0"], log, info, "k")
     check(out == bad and info.get("inline_failed") and "inlined" not in info, "inline_item: failure leaves text unchanged: %r" % info)
+    # constants an edit introduced: module-level const / static, associated const; `*NAME` (R6 shape) left alone
+    csrc = '''
+/// doc
+const BUF: usize = 1 << 18;
+pub(crate) static LIMIT: u64 = 4 * 1024;
+static mut COUNTER: u64 = 0;
+static CACHE: Mutex<u32> = Mutex::new(0);
+pub struct S { a: usize }
+impl S {
+    const W: usize = 64;
+    pub fn run(&self, n: usize) -> usize { let v = vec![0u8; BUF]; v.len() + n + Self::W + LIMIT as usize }
+    pub fn lazy(&self) -> usize { *BUF + 1 }
+    pub fn stat(&self) -> u64 { COUNTER + *CACHE.lock() as u64 }
+}
+#[cfg(test)]
+mod tests { const ONLY_TEST: usize = 1; }
+'''
+    with open(os.path.join(d, "src", "c.rs"), "w") as f:
+        f.write(csrc)
+    run = find_item(d, "src/c.rs", "fn", "run", "impl S").text
+    info, log = {}, {}
+    out = ah.inline_item(d, "src/c.rs", "impl S", run, ["BUF", "W", "LIMIT"], log, info, "k")
+    o = ah.strip_marks(out)
+    check("{ const BUF: usize = 1 << 18;" in o.replace("  ", " ") or "const BUF: usize = 1 << 18;" in o, "free const re-declared at function start: %s" % o)
+    check("const LIMIT: u64 = 4 * 1024;" in o and "static" not in o and "const W: usize = 64;" in o and "Self::W" not in o and "pub(crate)" not in o, "static and associated const re-declared, uses plain: %s" % o)
+    check(sorted(info.get("inlined", [])) == ["k: const BUF", "k: const LIMIT", "k: const W"] and not info.get("inline_failed"), "const info: %r" % info)
+    check(o.count("const BUF") == 1, "declared once (Verus: no two same-named consts in one function)")
+    info, log = {}, {}
+    out = ah.inline_item(d, "src/c.rs", "impl S", run, ["BUF", "LIMIT"], log, info, "k", region=True)
+    o = ah.strip_marks(out)
+    check("const VX_H_1_BUF: usize = 1 << 18; VX_H_1_BUF" in o and "const VX_H_1_LIMIT: u64 = 4 * 1024; VX_H_1_LIMIT" in o, "region: per-use block with a fresh name: %s" % o)
+    lazy = find_item(d, "src/c.rs", "fn", "lazy", "impl S").text
+    info, log = {}, {}
+    out = ah.inline_item(d, "src/c.rs", "impl S", lazy, ["BUF"], log, info, "k")
+    check(out == lazy and any("R6" in x for x in info.get("inline_failed", [])), "`*NAME` is left alone: %r" % info)
+    stat = find_item(d, "src/c.rs", "fn", "stat", "impl S").text
+    info, log = {}, {}
+    out = ah.inline_item(d, "src/c.rs", "impl S", stat, ["COUNTER", "CACHE", "ONLY_TEST"], log, info, "k")
+    check(out == stat and "inlined" not in info, "static mut / interior mutability / test-only constants are not inlined: %r" % info)
     # driver policy: a helper with a loop is inlined only if that loop is a loop of the item's baseline text (up to renaming of locals)
     base = "fn run(&self, xs: &[u32]) -> u32 { let mut acc = 0; let mut i = 0; while i < xs.len() && xs[i] != 0 { acc += xs[i]; i += 1; } acc + self.a as u32 }"
     cur = "fn run(&self, xs: &[u32]) -> u32 { let acc = Self::sum_prefix(xs); acc + self.a as u32 }"
